@@ -12,6 +12,7 @@ Reflexivity, transitivity and soundness of is_subhint over all hints are not dec
 from __future__ import annotations
 
 import ast
+import re
 
 from sa.astutil import dotted, params_of, methods_of
 from sa.flow import walk_shallow
@@ -188,20 +189,21 @@ def _subhint_soundness(ctx, repo):
             guards = _guards(r, fn)
             txt = norm(v)
 
-            def pos(g, what):
-                g = g.strip()
-                return g == what or g == f'not (not {what})' or g.startswith(what + ' and ') or g.endswith(' and ' + what)
-            ok = origin in txt or any(pos(g, origin) for g in guards)
+            # the path condition and the returned conjunction as a set of literals (negations pushed inwards by De Morgan)
+            lits = set()
+            for g in list(guards) + [txt]:
+                lits |= _literals(g)
+            ok = origin in lits or any(origin in l and not l.startswith('not ') for l in lits)
             why = ''
             if not ok:
-                for g in guards:
-                    for K in ORIGIN_FIXED:
-                        if pos(g, f'isinstance({bp}, {K})'):
-                            ok = True
-                if not ok and ('.is_subhint(' in txt or 'self._metahint_wrapper' in txt or 'self._metadata ==' in txt):
-                    ok = True       # delegation to the wrapped hint's own comparison
+                if any(f'isinstance({bp}, {K})' in lits for K in ORIGIN_FIXED):
+                    ok = True       # a class test that fixes the origin
+                if not ok and any(('.is_subhint(' in l or '._is_subhint' in l) and not l.startswith('not ') for l in lits):
+                    ok = True       # delegation to the wrapped hint's own comparison (in the guards or in the result)
+                if not ok and any(re.search(r'^self\.\w+ <= |^\w+\.\w+ >= self\.', l) for l in lits):
+                    ok = True       # … spelled as a comparison of wrappers (a <= b is a.is_subhint(b))
                 if not ok and cname == 'TypeHint':
-                    ok = any('issubclass(self._origin' in g for g in guards)
+                    ok = any('issubclass(self._origin' in l and not l.startswith('not ') for l in lits)
                 why = f'returns `{txt[:70]}` under {guards}: no origin test and no class test that fixes the origin'
             ctx.ob('C19.R6', f'{cname}._is_subhint_branch:return:{txt[:50]}', m.where(r),
                    'a possibly-true result is produced only after origin compatibility was established', ok, why)
@@ -257,20 +259,66 @@ def typehint_cache(ctx, RULE):
                 if isinstance(f, ast.FunctionDef) and f.name == '__call__':
                     call = f
     ctx.require(call is not None, 'anchor vanished: TypeHint metaclass __call__')
-    cs = [c for c in walk_shallow(call) if isinstance(c, ast.Call) and isinstance(c.func, ast.Attribute)
-          and c.func.attr == 'cache_or_get_cached_func_return_passed_arg' and isinstance(c.func.value, ast.Name)]
+    # the cache lookup: a call of <cache>.cache_or_get_cached_func_return_passed_arg, directly or through a module-level
+    # alias of that bound method; arguments by keyword or by position (positions read off the method's definition)
+    METH = 'cache_or_get_cached_func_return_passed_arg'
+    um = repo.mod('beartype._util.cache.map.utilmapunbounded')
+    mdef = repo.find_def(um.name, f'CacheUnboundedStrong.{METH}')
+    pnames = [p for p in params_of(mdef)[1:]]
+    aliases = {}
+    for nm_, sts in mm.assigns.items():
+        for st in sts:
+            v = getattr(st, 'value', None)
+            if isinstance(v, ast.Attribute) and v.attr == METH and isinstance(v.value, ast.Name):
+                aliases[nm_] = v.value.id
+    cs = []
+    for c in walk_shallow(call):
+        if not isinstance(c, ast.Call):
+            continue
+        if isinstance(c.func, ast.Attribute) and c.func.attr == METH and isinstance(c.func.value, ast.Name):
+            cs.append((c, c.func.value.id))
+        elif isinstance(c.func, ast.Name) and c.func.id in aliases:
+            cs.append((c, aliases[c.func.id]))
     hp = params_of(call)[1] if len(params_of(call)) > 1 else 'hint'
-    ok = len(cs) == 1 and {k.arg: norm(k.value) for k in cs[0].keywords}.get('key') == hp \
-        and {k.arg: norm(k.value) for k in cs[0].keywords}.get('arg') == hp
+    bound = {}
+    if len(cs) == 1:
+        c0 = cs[0][0]
+        bound = {pnames[i]: norm(a) for i, a in enumerate(c0.args) if i < len(pnames)}
+        bound.update({k.arg: norm(k.value) for k in c0.keywords})
+    ok = len(cs) == 1 and bound.get('key') == hp and bound.get('arg') == hp
     ctx.ob(RULE, 'TypeHint.__call__:cached-by-hint', mm.where(call), 'the wrapper cache is keyed by the hint itself', ok,
-           norm(cs[0])[:120] if cs else 'no cache call')
+           norm(cs[0][0])[:120] if cs else 'no cache call')
     # the cache object, whatever it is called and wherever it is defined (here or in a sibling module)
     tab = []
     if cs:
-        nm = cs[0].func.value.id
+        nm = cs[0][1]
         r = repo.resolve_name(mm, call, nm)
         dm = repo.modules.get(r.module) if getattr(r, 'module', None) else None
         tab = [(dm, st) for st in (dm.assigns.get(r.name, []) if dm is not None else [])] or [(mm, st) for st in mm.assigns.get(nm, [])]
     ok = bool(tab) and isinstance(tab[-1][1].value, ast.Call) and any(k.arg == 'lock_type' for k in tab[-1][1].value.keywords)
     ctx.ob(RULE, 'wrapper-cache:locked', tab[-1][0].where(tab[-1][1]) if tab else mm.where(call), 'the cache carries its own lock', ok,
            norm(tab[-1][1])[:100] if tab else 'cache definition not found')
+
+
+def _literals(text: str) -> set:
+    """The literals of a condition read as a conjunction, negations pushed inwards (De Morgan); a disjunction that
+    cannot be split stays one literal."""
+    try:
+        e = ast.parse(text, mode='eval').body
+    except SyntaxError:
+        return {text.strip()}
+    out = set()
+
+    def walk(x, neg):
+        if isinstance(x, ast.UnaryOp) and isinstance(x.op, ast.Not):
+            walk(x.operand, not neg)
+        elif isinstance(x, ast.BoolOp) and ((isinstance(x.op, ast.And) and not neg) or (isinstance(x.op, ast.Or) and neg)):
+            for v in x.values:
+                walk(v, neg)
+        else:
+            t = ast.unparse(x)
+            out.add(f'not {t}' if neg else t)
+            if neg and not isinstance(x, ast.BoolOp):
+                out.add(f'not ({t})')
+    walk(e, False)
+    return out
